@@ -60,9 +60,14 @@ CleanOk(s) ==
 FlipOk(s) ==
   LET o == Out(s) IN
   /\ IsSubSeqOf(o, <<s.p1, s.p2>>)          \* rejected, or repaired to the original; nothing invalid
-  \* the following frame still arrives, unless the corrupted bit is in the
-  \* very flag it shares with the corrupted frame
-  /\ (~s.shared \/ s.flip <= 8 + Len(Body(s.p1))) => (Len(o) >= 1 /\ o[Len(o)] = s.p2)
+  \* the following frame still arrives, unless it shares its only opening flag
+  \* with the corrupted frame and the corrupted bit is in that flag or in the
+  \* seven bits before it: a corrupted frame is bit noise to its successor, and
+  \* noise that ends in a run of ones merges with a single flag (two
+  \* overlapping flags, or an abort), which is why a frame is only promised
+  \* after noise when at least two flags precede it (found by the thorough
+  \* constants: p1 = <<63,126,126>>, its final stuffed zero flipped)
+  /\ (~s.shared \/ s.flip <= 8 + Len(Body(s.p1)) - 7) => (Len(o) >= 1 /\ o[Len(o)] = s.p2)
 NoCheckOk(s) == Out(s) = <<WithCrc(s.p1), WithCrc(s.p2)>>
 
 ScenarioOk == stage < 4 \/
